@@ -24,7 +24,8 @@ RULE = ("R-score compositions restricted to velocity 1-127 and values with an in
         "key and meter of every bar; bpm 4..1000 exhaustively; every key x meter systematically; the VLQ reader on the reference "
         "encoding of a dense range and all power-of-two neighbourhoods (thorough: all 2^28 values); corrupted header/track tags "
         "and format words. Non-trivial: a score with a rest and a chord, a key with accidentals, or a leading rest; a bpm that "
-        "is not a divisor of 60000000; a VLQ range above 127; every corruption.")
+        "is not a divisor of 60000000; a VLQ range above 127; every corruption."
+        ' Also: values given as 288/k ticks, names of 120-300 characters, twin bars, shared instrument objects, tempo-carrying containers, and one reader object used for two different files.')
 ASSUMPTIONS = ["instrument numbers are compared for tracks with at least one sounding note (the program change rides on the first note-on)",
                "bars are re-cut by the reader: note content is compared on the flattened sequence only",
                "bpm domain 4..7000 (above ~7745 the 24-bit microseconds-per-quarter field cannot represent every integer bpm)",
